@@ -1,11 +1,13 @@
 import GoDcp.Driver.All
 import GoDcp.Driver.Session
+import GoDcp.Driver.SessionMon
 import GoDcp.Driver.Life
 
 open GoDcp.Driver
 
 structure DState where
   sess : GoDcp.St := {}
+  smon : SMon := {}
   life : GoDcp.Life.LSt := {}
   lmon : LMon := {}
 
@@ -19,7 +21,13 @@ def handle (st : DState) (line : String) : DState × String :=
   | [] => (st, "bad-op\t-")
   | c :: args =>
     match sessionLine st.sess (c :: args) with
-    | some (s', out) => ({ st with sess := s' }, s!"{out}\t-")
+    | some (s', out) =>
+      if c == "reset" then ({ st with sess := s', smon := {} }, s!"{out}\t-") else
+      match real with
+      | none => ({ st with sess := s' }, s!"{out}\t-")
+      | some r =>
+        let (m', v) := smonStep st.smon st.sess s' (c :: args) r
+        ({ st with sess := s', smon := m' }, s!"{out}\t{v}")
     | none =>
     match lifeLine st.life st.lmon (c :: args) real with
     | some (l', m', out, v) => ({ st with life := l', lmon := m' }, s!"{out}\t{v}")
